@@ -286,11 +286,12 @@ func (w *World) SnapshotAt(ctx sdk.Context) *Snapshot {
 				Amount: mustI64(c.Amount), KeyBody: hx(body)})
 		case 0x19:
 			var c sdk.Coin
-			if cdc.UnmarshalBinaryBare(v, &c) != nil {
+			// key body: owner | denom of the stored coin
+			if cdc.UnmarshalBinaryBare(v, &c) != nil || !bytes.HasSuffix(body, []byte(c.Denom)) {
 				bad()
 				continue
 			}
-			s.OwnerEarn[hx(body)] = mustI64(c.Amount)
+			s.OwnerEarn[hx(body[:len(body)-len(c.Denom)])] += mustI64(c.Amount)
 		default:
 			bad()
 		}
